@@ -294,18 +294,21 @@ class MATCHConv2d(nn.Conv2d, MATCHModule):
         :param kernel_size: the kernel size
         :type kernel_size: int
         """
+        # input channels of ONE group (the weight is [out_channels, in_channels / groups, kh, kw]):
+        # a depthwise layer has a single one
+        in_channels = self.weight.shape[1]
         if pad_dim == 0:
-            padded_weights = torch.zeros(self.out_channels, self.in_channels,
+            padded_weights = torch.zeros(self.out_channels, in_channels,
                                          kernel_size * dilation - (dilation - 1),
                                          1,
                                          device=self.device)
         else:
-            padded_weights = torch.zeros(self.out_channels, self.in_channels,
+            padded_weights = torch.zeros(self.out_channels, in_channels,
                                          1,
                                          kernel_size * dilation - (dilation - 1),
                                          device=self.device)
         for c_out in range(self.out_channels):
-            for c_in in range(self.in_channels):
+            for c_in in range(in_channels):
                 for i in range(kernel_size):
                     if pad_dim == 0:
                         padded_weights[c_out, c_in, i * dilation] = self.weight[c_out, c_in, i]
